@@ -9,9 +9,9 @@ from .core import Ctx
 def main() -> int:
     ctx = Ctx('SELFTEST', 'quick', 0)
     ok = True
-    good = {'t': 'good', 'ev': [{'op': 'probe', 'c': False, 'v': {'uw': 'unset', 'sox': 'unset', 'nox': 'unset'}},
-                               {'op': 'load', 'ok': 'yes', 'f': {'uw': 'absent', 'sox': 'absent', 'nox': 'absent'}, 'k': {'uw': 'false', 'sox': 'absent', 'nox': 'absent'}, 'c': True, 'v': {'uw': 'false', 'sox': 'true', 'nox': 'bffm2'}},
-                               {'op': 'get', 'ok': 'yes', 'c': True, 'v': {'uw': 'false', 'sox': 'true', 'nox': 'bffm2'}}]}  # fmt: skip
+    good = {'t': 'good', 'ev': [{'op': 'probe', 'c': False, 'v': {'uw': 'unset', 'sox': 'unset', 'nox': 'unset', 'wd': 'unset'}},
+                               {'op': 'load', 'ok': 'yes', 'f': {'uw': 'absent', 'sox': 'absent', 'nox': 'absent', 'wd': 'absent'}, 'k': {'uw': 'false', 'sox': 'absent', 'nox': 'absent', 'wd': 'absent'}, 'c': True, 'v': {'uw': 'false', 'sox': 'true', 'nox': 'bffm2', 'wd': 'wdefault'}},
+                               {'op': 'get', 'ok': 'yes', 'c': True, 'v': {'uw': 'false', 'sox': 'true', 'nox': 'bffm2', 'wd': 'wdefault'}}]}  # fmt: skip
     import copy
 
     bad_field = copy.deepcopy(good)
